@@ -289,7 +289,7 @@ MUTANTS = [
     dict(id="C14-M4", file=_C, old="        x_coordinates, x = x.track_coord_gradients()\n\n        data = {}\n        for fun in self.data_functions:\n            data[fun] = self.data_functions[fun](x_coordinates)\n\n        y = self.module(x)\n\n        unreduced_loss = self.error_fn(\n            self.residual_fn(\n                {**y.coordinates, **x_coordinates, **self.parameter.coordinates, **data}",
          new="        x_coordinates, x = x.track_coord_gradients()\n        self.last_points = x\n\n        data = {}\n        for fun in self.data_functions:\n            data[fun] = self.data_functions[fun](x_coordinates)\n\n        y = self.module(x)\n\n        unreduced_loss = self.error_fn(\n            self.residual_fn(\n                {**y.coordinates, **x_coordinates, **self.parameter.coordinates, **data}", rule="R-C14-4", what="forward caches points on self"),
     dict(id="C14-M5", file=_C, old="        if not sampler.is_static:\n            raise ValueError(\n                \"Adaptive point weights should only be used with static\", \"samplers.\"\n            )", new="        sampler = sampler.make_static()", rule="R-C14-4", what="constructor re-staticises the user's sampler"),
-    dict(id="C14-M6", file=_U, old="        inp = {key: args[key] for key in self.args if key in args}\n        inp.update(\n            {key: self.defaults[key] for key in self.args if key not in args}\n        )\n        if not vectorize:",
+    dict(id="C14-M6", file=_U, old="        inp = {key: args[key] for key in self.args if key in args}\n        inp.update({key: self.defaults[key] for key in self.args if key not in args})\n        if not vectorize:",
          new="        for key in self.args:\n            if key not in args:\n                args.setdefault(key, self.defaults[key])\n        inp = {key: args[key] for key in self.args}\n        if not vectorize:", rule=None, rules=["R-C13-5", "R-C14-2"], what="defaults written into the caller's mapping"),
     dict(id="C14-M7", file=_S, old="        self.optimizer_args = optimizer_args", new="        self.optimizer_args = optimizer_args\n        optimizer_args.setdefault(\"lr\", lr)", rule="R-C14-2", what="mutable default written (thorough tier scope)"),
 ]
